@@ -259,3 +259,122 @@ Arguments accept {B}. Arguments stop {B}. Arguments cb_stop {B}.
 Arguments mkL {B E}. Arguments cur {B E}. Arguments cache {B E}. Arguments last2 {B E}. Arguments errs {B E}. Arguments trace {B E}.
 Arguments setb {B}. Arguments emit {B E}. Arguments sweep {B E}. Arguments report {B E}. Arguments iteration {B E}.
 Arguments finish_iteration {B E}. Arguments loop {B E}. Arguments run {B E}. Arguments line_iter C it : rename.
+
+(* ================================================================ additions of round 2 ================= *)
+
+(* ---------------------------------------------------------------- CP blocks for the loop skeleton *)
+(* cp_normalize as a relation: the columns are rescaled, the weights absorb the scales *)
+Section CPBlocks.
+Context {F : Type} (Op : fops F).
+Local Notation "a *f b" := (fmul Op a b) (at level 40, left associativity).
+Fixpoint prodF (ds : list F) : F := match ds with [] => f1 Op | d :: ds' => d *f prodF ds' end.
+(* gs = ds (.) gs'  column by column *)
+Fixpoint scaled (gs gs' : list (nat -> F)) (ds : list F) : Prop :=
+  match gs, gs', ds with
+  | g :: gs0, g' :: gs0', d :: ds0 => (forall i, g i = d *f g' i) /\ scaled gs0 gs0' ds0
+  | [], [], [] => True
+  | _, _, _ => False
+  end.
+
+Variables (s : list nat) (X : list nat -> F) (R : nat).
+(* block k < length s : factor k as (row, column) -> entry;  block (length s) : the weights, read at row 0 *)
+Definition blk := nat -> nat -> F.
+Definition cols_of (st : blocks blk) (r : nat) : list (nat -> F) := map (fun k i => st k i r) (seq 0 (length s)).
+Definition w_of (st : blocks blk) (r : nat) : F := st (length s) 0 r.
+(* the squared residual, from scratch, of the iterate st *)
+Definition cp_err2 (st : blocks blk) : F := err2_true Op s X R (w_of st) (cols_of st).
+(* error_calc's shortcut along the loop: current weights / factors, an MTTKRP computed for mode (fst c) from the
+   blocks (snd c), paired with factor p.  weighted_mttkrp = true: the MTTKRP carries the weights (parafac, MU, HALS);
+   false: it does not and the weights multiply the column sums (constrained_parafac) *)
+Definition cp_fast (weighted_mttkrp : bool) (cur : blocks blk) (c : nat * blocks blk) (p : nat) : F :=
+  let u := if weighted_mttkrp then w_of (snd c) else ones Op in
+  let v := if weighted_mttkrp then ones Op else w_of cur in
+  err2_fast_with Op s X R (w_of cur) v (cols_of cur) (mttkrp Op s X u (cols_of (snd c)) (fst c)) p.
+(* a normalisation step = any rescaling of the columns absorbed by the weights *)
+Definition rescaling (st st' : blocks blk) : Prop :=
+  exists ds : nat -> list F,
+    (forall r, r < R -> scaled (cols_of st r) (cols_of st' r) (ds r)) /\
+    (forall r, r < R -> w_of st' r = w_of st r *f prodF (ds r)).
+End CPBlocks.
+
+(* ---------------------------------------------------------------- PARAFAC2: _parafac2_reconstruction_error *)
+Section MP2.
+Context {F : Type} (Op : fops F).
+Local Notation "a +f b" := (fadd Op a b) (at level 50, left associativity).
+Local Notation "a -f b" := (fsub Op a b) (at level 50, left associativity).
+Local Notation "a *f b" := (fmul Op a b) (at level 40, left associativity).
+Local Notation S_ := (Fsum Op).
+(* I slices; slice i is (J i) x K; rank Rk.  X i j k;  projections P i j q  ((J i) x Rk);  A i r (ALREADY multiplied by
+   the weights: A = A * weights);  Bm q r (Rk x Rk);  C k r (K x Rk) *)
+Variables (I K Rk : nat) (J : nat -> nat) (X P : nat -> nat -> nat -> F) (A Bm C : nat -> nat -> F).
+(* B_i = (projections[i] @ B) * A[i] *)
+Definition p2_Bi (i j r : nat) : F := S_ Rk (fun q => P i j q *f Bm q r) *f A i r.
+(* slice i of parafac2_to_tensor:  B_i C^T *)
+Definition p2_slice (i j k : nat) : F := S_ Rk (fun r => p2_Bi i j r *f C k r).
+Definition p2_err2_true : F := S_ I (fun i => S_ (J i) (fun j => S_ K (fun k => sq Op (X i j k -f p2_slice i j k)))).
+Definition p2_normX : F := S_ I (fun i => S_ (J i) (fun j => S_ K (fun k => sq Op (X i j k)))).
+(* tmp = B_i^T X_i *)
+Definition p2_tmp (i r k : nat) : F := S_ (J i) (fun j => p2_Bi i j r *f X i j k).
+(* tmp = (reshape(A[i], (-1,1)) * B^T) @ projected_tensor[i],   projected_tensor[i] = P_i^T X_i *)
+Definition p2_projected (i q k : nat) : F := S_ (J i) (fun j => P i j q *f X i j k).
+Definition p2_tmp_proj (i r k : nat) : F := S_ Rk (fun q => (A i r *f Bm q r) *f p2_projected i q k).
+(* inner_product += trace(tmp @ C) ;  norm_cmf_sq += sum((B_i^T B_i) * (C^T C)) *)
+Definition p2_inner (tmp : nat -> nat -> nat -> F) : F := S_ I (fun i => S_ Rk (fun r => S_ K (fun k => tmp i r k *f C k r))).
+Definition p2_ncmf : F :=
+  S_ I (fun i => S_ Rk (fun r => S_ Rk (fun t => S_ (J i) (fun j => p2_Bi i j r *f p2_Bi i j t) *f S_ K (fun k => C k r *f C k t)))).
+(* the quantity under sqrt(abs(.)):  norm_X_sq - 2 * inner_product + norm_cmf_sq *)
+Definition p2_err2_fast (tmp : nat -> nat -> nat -> F) : F := (p2_normX -f two Op *f p2_inner tmp) +f p2_ncmf.
+End MP2.
+
+(* executed side: the decomposition as data *)
+Section MP2data.
+Context {F : Type} (Op : fops F).
+Definition mat2 (t : tensor F) (i j : nat) : F := get (f0 Op) t [i; j].
+Definition slices_fun (l : list (tensor F)) (i j k : nat) : F := mat2 (nth i l (mk [] [])) j k.
+Definition slices_rows (l : list (tensor F)) (i : nat) : nat := nth 0 (shape (nth i l (mk [] []))) 0.
+(* (squared error by the shortcut with B_i^T X_i, the same with the projected slices, squared error from scratch, ||X||^2) *)
+Definition p2_all (slices : list (tensor F)) (w : option (list F)) (A B C : tensor F) (Ps : list (tensor F)) : F * F * F * F :=
+  let I := length slices in let K := nth 0 (shape C) 0 in let Rk := nth 1 (shape C) 0 in
+  let J := slices_rows slices in let X := slices_fun slices in let P := slices_fun Ps in
+  let Aw := fun i r => fmul Op (mat2 A i r) (wfun Op w r) in
+  let Bm := mat2 B in let Cm := mat2 C in
+  (p2_err2_fast Op I K Rk J X P Aw Bm Cm (p2_tmp Op Rk J X P Aw Bm),
+   p2_err2_fast Op I K Rk J X P Aw Bm Cm (p2_tmp_proj Op Rk J X P Aw Bm),
+   p2_err2_true Op I K Rk J X P Aw Bm Cm,
+   p2_normX Op I K J X).
+End MP2data.
+
+(* ---------------------------------------------------------------- PARAFAC2 loop skeleton (line search a la Bro) *)
+(* One outer iteration = projections + a few inner ALS sweeps (update).  On a line-search iteration the code calls
+   line_step with rec_errors[-1] (the error of the PREVIOUS iterate): an accepted jump overwrites rec_errors[-1] with the
+   error of the extrapolated iterate; a rejected jump returns the freshly updated iterate together with that stale
+   value, and no error is computed for it.   recompute_on_reject = false is the code as it is. *)
+Section P2Skeleton.
+Variables (St E : Type).
+Record p2oracle := mkP2 {
+  p2_update : nat -> St -> St;
+  p2_jump : nat -> St -> St -> St;     (* iteration, iterate at the start of the iteration, updated iterate -> extrapolation *)
+  p2_accept : nat -> bool;
+  p2_norm : St -> St;
+  p2_stop : nat -> bool }.
+Variables (err : St -> E) (Or : p2oracle) (ls normalize recompute_on_reject : bool).
+Definition set_last (l : list E) (e : E) : list E := removelast l ++ [e].
+Fixpoint p2_loop (n it : nat) (cur : St) (errs : list E) : St * list E :=
+  match n with
+  | O => (cur, errs)
+  | S n' =>
+      let line := ls && Nat.even it && (5 <? it) in
+      let upd := p2_update Or it cur in
+      let st := if line && p2_accept Or it then p2_jump Or it cur upd else upd in
+      let errs1 := if line then
+                     if p2_accept Or it then set_last errs (err st)
+                     else if recompute_on_reject then set_last errs (err st) else errs
+                   else errs in
+      let st' := if normalize then p2_norm Or st else st in
+      let errs2 := if line then errs1 else errs1 ++ [err st'] in
+      if p2_stop Or it then (st', errs2) else p2_loop n' (S it) st' errs2
+  end.
+Definition p2_last_ok (r : St * list E) : Prop := exists es, snd r = es ++ [err (fst r)].
+End P2Skeleton.
+Arguments mkP2 {St}. Arguments p2_update {St}. Arguments p2_jump {St}. Arguments p2_accept {St}.
+Arguments p2_norm {St}. Arguments p2_stop {St}. Arguments p2_loop {St E}. Arguments p2_last_ok {St E}.
